@@ -3,7 +3,7 @@
    The model (Model/C01.v: step, iter_all, ...) is the one the lock-step correspondence evaluates
    against the real Part after every operation; Inv / valid_op / abs / spec_* are in Model/C01_Spec.v;
    ct_* (Gen/C01_ClassTree.v) is the TimedObject class tree reflected from partitura.score on every run. *)
-From PV Require Import Lib.Base Gen.C01_ClassTree Model.C01 Model.C01_Spec
+From PV Require Import Lib.Base Gen.C01_ClassTree Model.C01 Model.C01_Tree Model.C01_Spec
   Proofs.C01_tree Proofs.C01_inv Proofs.C01_main Proofs.C01_query.
 From Coq Require Import Sorting.Sorted.
 
@@ -56,6 +56,20 @@ Theorem run_total : forall q0 ops, valid_run (init q0) ops ->
 Proof. exact reachable_total_lemma. Qed.
 Print Assumptions run_total.
 
+(* a call that fails leaves the part exactly as it was; in a state satisfying the invariant the only calls
+   that fail are those with a negative time (InvalidTimePointException) -- in particular add(o, start, end)
+   with one good and one negative time registers nothing *)
+Theorem step_fail_unchanged : forall p o, InvW p -> snd (step p o) <> OutOk ->
+  fst (step p o) = p /\ snd (step p o) = OutInvalidTime /\ rejected o.
+Proof. exact step_fail_unchanged_lemma. Qed.
+Print Assumptions step_fail_unchanged.
+
+(* the invariant along histories in which rejected calls are interleaved with the valid operations *)
+Theorem run_mixed_inv : forall q0 ops, mixed_run (init q0) ops ->
+  InvW (run (init q0) ops) /\ (strict_run (init q0) ops -> Inv (run (init q0) ops)).
+Proof. exact reachable_mixed_lemma. Qed.
+Print Assumptions run_mixed_inv.
+
 (* refinement: the registered start/end of every object and the quarter duration in force evolve as the
    three-line abstract specification says (so an operation is never half applied) *)
 Theorem step_refines : forall p o, InvW p -> valid_op p o ->
@@ -100,6 +114,32 @@ Theorem iter_prev_spec : forall p t c eq sub, InvW p -> (exists q, In q (points 
 Proof. exact iter_prev_spec_lemma. Qed.
 Print Assumptions iter_prev_spec.
 
+(* ... and stated the way iter_all_spec is: membership, each once, time order *)
+Theorem iter_next_exact : forall p t c eq sub, InvW p -> (exists q, In q (points p) /\ pt q = t) ->
+  (forall t' o, In (t', o) (iter_next p t c eq sub) <->
+                ostart p o = Some t' /\ (if eq then t <= t' else t < t') /\ cls_match c sub o) /\
+  NoDup (iter_next p t c eq sub) /\
+  StronglySorted Z.le (map fst (iter_next p t c eq sub)).
+Proof. exact iter_next_exact_lemma. Qed.
+Print Assumptions iter_next_exact.
+
+Theorem iter_prev_exact : forall p t c eq sub, InvW p -> (exists q, In q (points p) /\ pt q = t) ->
+  (forall t' o, In (t', o) (iter_prev p t c eq sub) <->
+                ostart p o = Some t' /\ (if eq then t' <= t else t' < t) /\ cls_match c sub o) /\
+  NoDup (iter_prev p t c eq sub) /\
+  StronglySorted Z.ge (map fst (iter_prev p t c eq sub)).
+Proof. exact iter_prev_exact_lemma. Qed.
+Print Assumptions iter_prev_exact.
+
+(* "matching": the object's class is cls, or with include_subclasses a strict descendant of it in the
+   reflected tree (__mro__); cls = None matches everything *)
+Theorem cls_match_isinstance : forall c o, valid_cls c ->
+  (cls_match (Some c) true o <-> ocls o = c \/ strict_descendant (ocls o) c) /\
+  (cls_match (Some c) false o <-> ocls o = c) /\
+  cls_match None false o.
+Proof. exact cls_match_isinstance_lemma. Qed.
+Print Assumptions cls_match_isinstance.
+
 Theorem first_last_spec : forall p, InvW p ->
   (points p = [] -> first_point p = None /\ last_point p = None) /\
   (forall q, In q (points p) ->
@@ -130,6 +170,26 @@ Print Assumptions subclasses_closed.
 Theorem itersub_matches_impl : forall c, valid_cls c -> zlookup c ct_itersub = Some (iter_subclasses c).
 Proof. exact itersub_matches_impl_lemma. Qed.
 Print Assumptions itersub_matches_impl.
+
+(* the same, stated directly on what partitura's iter_subclasses returned (ct_itersub) *)
+Theorem impl_itersub_closed : forall c, valid_cls c ->
+  NoDup (impl_itersub c) /\ (forall d, In d (impl_itersub c) <-> strict_descendant d c).
+Proof. exact impl_itersub_closed_lemma. Qed.
+Print Assumptions impl_itersub_closed.
+
+(* every strict descendant -- in particular a class reached along two inheritance paths -- is enumerated
+   exactly once, by the model and by the implementation *)
+Theorem descendant_once : forall c d, valid_cls c -> strict_descendant d c ->
+  count_occ Z.eq_dec (iter_subclasses c) d = 1%nat /\ count_occ Z.eq_dec (impl_itersub c) d = 1%nat.
+Proof. exact descendant_once_lemma. Qed.
+Print Assumptions descendant_once.
+
+(* not vacuous: the tree has multiply inherited classes, each below a class with two paths to it *)
+Theorem multi_parent_exists :
+  multi_parent <> [] /\
+  forallb (fun d => existsb (fun c => strict_desc_b d c && two_paths_b c d) classes) multi_parent = true.
+Proof. exact multi_parent_exists_lemma. Qed.
+Print Assumptions multi_parent_exists.
 
 Theorem diamond_once :
   match cls_named "Direction", cls_named "ConstantLoudnessDirection", cls_named "LoudnessDirection", cls_named "ConstantDirection" with
